@@ -40,7 +40,7 @@ structure RunLoc (s : State) (m : Nat) : Prop where
   lowest : ∀ r, (s.get r).running = true → m ≤ r
   srcSeen : (s.get m).sources = (s.get m).seen.map (·.1)
   seenOk : ∀ e ∈ (s.get m).seen,
-    (s.get e.1).st = .clean ∧ (s.get e.1).val = some e.2.1 ∧ (s.get e.1).ver = e.2.2
+    (s.get e.1).st = .clean ∧ (s.get e.1).val = some e.2.1
 
 /-! ## track -/
 
